@@ -177,6 +177,19 @@ def saves_and_monitors(ctx, rng, idx):
     ok = len(t2) == len(base) and all(_same(a, b) for a, b in zip(base, t2))
     ctx.true("monitors-attached", ok, "monitors/trajectory-changed-by-monitors/" + who, {"monitors": mdesc}, cls="monitors-attached")
     _check_monitor_records(ctx, s, log2, mons, {}, iname)
+    # monitors given to the CONSTRUCTOR (merged with per-call ones; their output is kept across calls, so only the records
+    # appended during the observed call are judged)
+    cmons, cdesc = _monitors(rng, s.model)
+    cmons = {"ctor_" + k: dict(v, type=v.get("type", k)) for k, v in cmons.items()}
+    S4 = gen.integ(iname)(s.mesh, s.disc, monitors=cmons)
+    t4, _, log4 = _traj(S4.solve, s.field, cfl, stop={"maxit": N})
+    ok = len(t4) == len(base) and all(_same(a, b) for a, b in zip(base, t4))
+    ctx.true("monitors-attached", ok, "monitors/trajectory-changed-by-constructor-monitors/" + who, {"monitors": cdesc}, cls="monitors-attached")
+    _check_monitor_records(ctx, s, log4, cmons, {}, iname)
+    before = {k: len(v["output"]._it) for k, v in cmons.items() if "output" in v}
+    t5, _, log5 = _traj(S4.solve, s.field, cfl, stop={"maxit": N}, monitors=mons)
+    _check_monitor_records(ctx, s, log5, cmons, before, iname)
+    ctx.true("monitors-attached", len(t5) == len(base) and all(_same(a, b) for a, b in zip(base, t5)), "monitors/trajectory-changed-by-constructor-and-call-monitors/" + who, None, cls="monitors-attached")
     # both, on the object that already ran
     t3, _, log3 = _traj(S.solve, s.field, cfl, tsave, stop={"maxit": N, "tottime": 1e30}, monitors=mons)
     ok = len(t3) == len(base) and all(_same(a, b) for a, b in zip(base, t3))
